@@ -524,6 +524,33 @@ fn supports_request(version: &[u8; 4], request_specific: &crate::common::Request
     }
 }
 
+#[cfg(mainline_verif)]
+impl KrpcSocket {
+    /// Verification hook: projection of the in-flight table.
+    pub fn verif_snapshot(&self) -> crate::verif::InflightSnap {
+        let timeout = self.inflight_requests.request_timeout();
+        crate::verif::InflightSnap {
+            next_tid: self.inflight_requests.next_tid,
+            total: self.inflight_requests.requests.len(),
+            live: self
+                .inflight_requests
+                .requests
+                .iter()
+                .filter(|r| r.sent_at.elapsed() < timeout)
+                .count(),
+            timeout_ns: timeout.as_nanos() as u64,
+            estimated_rtt_ns: self.inflight_requests.estimated_rtt.as_nanos() as u64,
+            deviation_rtt_ns: self.inflight_requests.deviation_rtt.as_nanos() as u64,
+            entries: self
+                .inflight_requests
+                .requests
+                .iter()
+                .map(|r| (r.tid, r.to.to_string(), r.sent_at.elapsed().as_nanos() as u64))
+                .collect(),
+        }
+    }
+}
+
 #[cfg(test)]
 mod test {
     use std::thread;
